@@ -192,6 +192,8 @@ pub fn run(ctx: &Ctx) -> Report {
             let mut v = crate::sqlgen2::level1_unary(true);
             v.extend(crate::sqlgen2::level1_binary().into_iter().filter(|r| r.term.ends_with("(users, orders)") || r.term.ends_with("(orders, users)")));
             v.extend(crate::sqlgen2::shared_cte_terms(true));
+            // a LIMIT / OFFSET below an aggregation or a projection
+            v.extend(crate::sqlgen2::compose(2).into_iter().filter(|r| (r.term.contains("(O1(") || r.term.contains("(O2(")) && (r.term.starts_with("A1(") || r.term.starts_with("A2(") || r.term.starts_with("P1(") || r.term.starts_with("A3("))));
             v
         } else {
             crate::sqlgen2::compose(2)
